@@ -63,6 +63,25 @@ pub fn run(o: &Opts) -> i32 {
             emit(n, d.abs().max(BigInt::one()), base, mode, kk, &mut rng);
         }
     }
+    // 1b. a single digit times a power of the base (every digit value, incl. decimal ten in bases above ten),
+    //     in the scientific / engineering modes and large enough to be printed that way in the default mode
+    for base in 2u8..=36 {
+        let b = BigInt::from(base);
+        for _ in 0..(4 * scale) {
+            let dig = 1 + rng.below(base as u64 - 1);
+            let k = rng.below(40) as u32;
+            let n = BigInt::from(dig) * Pow::pow(&b, k);
+            let (n, d) = if rng.chance(1, 3) { (BigInt::from(dig), Pow::pow(&b, k)) } else { (n, BigInt::one()) };
+            let n = if rng.chance(1, 4) { -n } else { n };
+            emit(n, d, base, *rng.pick(&["sci", "eng", "default", "digits"]), rng.below(12), &mut rng);
+        }
+        // decimal ten and the base's own neighbours as mantissa
+        for dig in [10u64, base as u64 - 1, base as u64 + 1] {
+            if dig >= base as u64 && dig != base as u64 + 1 { continue; }
+            let k = 3 + rng.below(30) as u32;
+            emit(BigInt::from(dig) * Pow::pow(&b, k), BigInt::one(), base, *rng.pick(&["sci", "eng"]), 0, &mut rng);
+        }
+    }
     // 2. denominators with short / long / huge recurring periods
     let dens: [u64; 14] = [3, 7, 9, 11, 13, 27, 37, 41, 97, 101, 239, 3937, 99991, 2305843009213693951];
     for _ in 0..(400 * scale) {
